@@ -7,11 +7,15 @@
 //
 // op lines (also the input of the Lean driver `xvdriver contract`):
 //
-//	reset fee=0|1                 new chain (no-fee genesis / fee genesis: 1 gas per burnt unit), empty contract state
+//	reset fee=0|1 [bank=<u>x<n>]  new chain (no-fee genesis / fee genesis: 1 gas per burnt unit), empty contract state; the account the
+//	                              contracts pay from (user 3, "the bank") owns <n> unspent outputs worth <u> each (default 1000000x40)
 //	pre <slot> <prog>             Chain.PreExec of `$xvc.run(prog)` by user 0 over the live state; the response is assembled
-//	                              into a signed transaction kept in <slot>
-//	                              -> ok|failed B <body> R <b>:<k>@<id>.<off>|- ... W <b>:<k>=<val> ... X <user>:<amt> ... E <e> ... U <used>
+//	                              into a signed transaction kept in <slot>. The outputs of the bank the call selects stay
+//	                              locked whatever becomes of the call.
+//	                              -> ok|failed B <body> R <b>:<k>@<id>.<off>|- ... W <b>:<k>=<val> ... I <amt> ... X <user>:<amt> ... E <e> ... U <used>
 //	                              |  error           (failed = contract status >= 400; error = PreExec returned an error)
+//	                              I = worth of the token inputs selected for the transfers, X = the token outputs created
+//	                              (payment, then change to user 3 iff the inputs are worth more), both in the order of the calls
 //	commit <slot> <id>            Chain.SubmitTx of the slot's transaction; on success it is transaction number <id>
 //	                              (versions are printed as <id>.<offset in TxOutputsExt>)     -> accept | reject | n/a
 //	mut <slot> <class> [args]     one mutation of the slot's transaction, VerifyTx on the node, DoTx on a copy, and
@@ -21,12 +25,16 @@
 //	replica                       a fresh node confirms + plays every block of the node and must reach the same state -> same
 //
 // mutation classes: rver b:k nil|bump|root, rdrop b:k, radd b:k, wval b:k v, wdrop b:k, wadd b:k v, wperm, args <prog>,
-// method, contract, limit, fee, nofee, xroute, xamt, xdecl, evt, evdrop, same (see mutate in exec.go).
+// method, contract, limit, fee, nofee, evt, evdrop, noreq, same; token side: xroute [j], xamt [j], xdecl, xboth [j], xswap,
+// idrop [j], iswap, iadd, isub [j], inreal [j], ishort [j] (see mutate in exec.go).
 //
 // impl-side oracle (exec.go): (a) the transaction assembled from a successful pre-execution is accepted against the same
 // state, and by the block path; (b) after acceptance exactly the keys of the write set changed, to exactly the declared
 // values with version (txid, offset), every other key / raw ZU,ZD row unchanged, nothing of the transient bucket stored;
-// (c) contract transfers reach their receivers, the initiator pays them plus the gas; every mutant whose verdict the
+// (c) contract transfers reach their receivers, the paying account loses exactly the selected inputs minus its change, the
+// initiator pays the gas, the outputs created for the paying account can be spent; (d) the token effects a pre-execution
+// returns are the ones declared in its write set, conserve value, spend distinct unspent outputs of the paying account and
+// hold every payment of the program as often as it makes it (checkTokenSide); every mutant whose verdict the
 // property fixes is refused (accepted for the harmless ones), by submission and by the block path alike; a transaction
 // whose read set went stale is refused; failed calls and refused transactions change nothing.
 package main
@@ -52,6 +60,8 @@ type Gen struct {
 	ops  []string
 	txid int
 	fee  bool
+	unit int      // worth of each unspent output of the paying account in this case
+	xfs  []string // the xfer steps of the program being generated (for repeats)
 }
 
 func (g *Gen) do(line string) string {
@@ -98,7 +108,7 @@ func (g *Gen) subStep() string {
 }
 
 func (g *Gen) step(nx *int) string {
-	switch g.r.Intn(24) {
+	switch g.r.Intn(25) {
 	case 0, 1, 2, 3:
 		return "get " + g.key()
 	case 4, 5, 6, 7, 8:
@@ -111,16 +121,12 @@ func (g *Gen) step(nx *int) string {
 		return fmt.Sprintf("copy %s %s", g.key(), g.key())
 	case 15:
 		return fmt.Sprintf("cnt %s %s %d %s", g.key(), g.hi(), g.r.Intn(5), g.key())
-	case 16:
-		if *nx >= 2 {
+	case 16, 22:
+		if *nx >= 4 {
 			return "get " + g.key()
 		}
 		*nx++
-		amt := 1 + g.r.Intn(50)
-		if g.r.Chance(1, 12) {
-			amt = 0
-		}
-		return fmt.Sprintf("xfer %d %d", 1+g.r.Intn(2), amt)
+		return g.xfer()
 	case 17:
 		return fmt.Sprintf("ev %d", g.r.Intn(5))
 	case 18, 19:
@@ -145,9 +151,58 @@ func (g *Gen) step(nx *int) string {
 	}
 }
 
+// xfer: a payment step. Amounts are chosen around the worth of the paying account's outputs, so that transfers are
+// covered exactly by one or several inputs, or leave change, in every mixture; a step often repeats an earlier payment
+// of the same program (identical outputs) or pays the paying account itself (an output that looks like change).
+func (g *Gen) xfer() string {
+	if len(g.xfs) > 0 && g.r.Chance(1, 3) {
+		st := g.xfs[g.r.Intn(len(g.xfs))]
+		g.xfs = append(g.xfs, st)
+		return st
+	}
+	u := g.unit
+	var amt int
+	if u >= 1000 {
+		amt = 1 + g.r.Intn(50)
+		if g.r.Chance(1, 6) {
+			amt = u * (1 + g.r.Intn(2))
+		}
+	} else {
+		switch g.r.Intn(6) {
+		case 0, 1:
+			amt = u * (1 + g.r.Intn(3)) // covered exactly
+		case 2:
+			amt = u*(1+g.r.Intn(2)) + 1
+		case 3:
+			amt = u*(1+g.r.Intn(3)) - 1
+		default:
+			amt = 1 + g.r.Intn(3*u)
+		}
+	}
+	if g.r.Chance(1, 14) {
+		amt = 0
+	}
+	to := 1 + g.r.Intn(2)
+	switch g.r.Intn(10) {
+	case 0:
+		to = 0
+	case 1:
+		to = 3
+	}
+	if to == 0 && amt >= 1000 {
+		// the change of the initiator's fee inputs may be worth exactly that: an output identical to this payment
+		// (see unlessStillPaid in exec.go)
+		to = 1
+	}
+	st := fmt.Sprintf("xfer %d %d", to, amt)
+	g.xfs = append(g.xfs, st)
+	return st
+}
+
 func (g *Gen) prog() string {
 	n := 1 + g.r.Intn(6)
 	nx := 0
+	g.xfs = nil
 	var ss []string
 	for i := 0; i < n; i++ {
 		ss = append(ss, g.step(&nx))
@@ -229,9 +284,33 @@ func (g *Gen) mutants(slot string) {
 		}
 	}
 	if len(p.X) > 0 {
-		add("xroute")
-		add("xamt")
+		// token side: real outputs, declared outputs, declared inputs, real inputs
+		add("xroute %d", r.Intn(len(p.X)))
+		if len(p.X) > 1 && r.Bool() {
+			add("xroute %d", r.Intn(len(p.X)))
+		}
+		add("xamt %d", r.Intn(len(p.X)))
 		add("xdecl")
+		add("xboth %d", r.Intn(len(p.X)))
+		if len(p.X) > 1 {
+			add("xswap")
+		}
+		add("idrop %d", r.Intn(len(p.I)))
+		if len(p.I) > 1 {
+			add("iswap")
+		}
+		if r.Chance(1, 2) {
+			add("inreal %d", r.Intn(len(p.I)))
+		}
+		if r.Chance(1, 3) {
+			add("isub %d", r.Intn(len(p.I)))
+		}
+		if r.Chance(1, 2) {
+			add("ishort %d", r.Intn(len(p.I)))
+		}
+	}
+	if r.Chance(1, 4) {
+		add("iadd")
 	}
 	if len(p.E) > 0 {
 		add("evt")
@@ -256,7 +335,14 @@ func (g *Gen) scenario(steps int) {
 	if g.fee {
 		f = 1
 	}
-	if a := g.do(fmt.Sprintf("reset fee=%d", f)); a != "ok" {
+	// the paying account: outputs of a small worth (transfers covered exactly / by several inputs / with change; the
+	// account may run dry) or of a large one (one input and change per transfer)
+	g.unit = []int{1, 2, 3, 5, 5, 8, 1000000, 1000000}[g.r.Intn(8)]
+	nOut := 40
+	if g.unit < 1000 {
+		nOut = 12 + g.r.Intn(50)*(1+3/g.unit)
+	}
+	if a := g.do(fmt.Sprintf("reset fee=%d bank=%dx%d", f, g.unit, nOut)); a != "ok" {
 		g.out.Stats.Notes = append(g.out.Stats.Notes, "reset failed: "+a)
 		return
 	}
@@ -271,7 +357,7 @@ func (g *Gen) scenario(steps int) {
 			g.txid++
 			if g.do(fmt.Sprintf("commit a %d", g.txid)) == "accept" {
 				accepted++
-				if strings.Contains(a, " W ") && !strings.Contains(a, " W X") {
+				if strings.Contains(a, " W ") && !strings.Contains(a, " W I") {
 					writes++
 				}
 			}
@@ -395,7 +481,7 @@ func main() {
 	if n == 0 {
 		n = 500
 		if args.Tier == "thorough" {
-			n = 8000
+			n = 6500
 		}
 	}
 	g := &Gen{r: xvlib.NewRng(args.Seed*1000003 + 909), e: ex, out: out}
